@@ -306,3 +306,19 @@ Proof.
   cbn [eval_roots]. destruct (eval debug facts describe (S (asize (fst (annotate q t)))) (fst (annotate q t)) []) as [x d1] eqn:E.
   cbn [fst snd] in *. now subst d1.
 Qed.
+
+(* the documented precedence and associativity, spelled out for two operators between any three operands: the second operator
+   takes the middle operand iff it binds tighter; otherwise the chain groups left to right *)
+Theorem two_operators : forall x w1 a1 t1 w1' y w2 a2 t2 w2' z,
+  sem_expr (Chain x (TCons w1 a1 t1 w1' y (TCons w2 a2 t2 w2' z TNil))) =
+    if aprio a1 <? aprio a2
+    then Bin (abinop a1) (sem_operand x) (Bin (abinop a2) (sem_operand y) (sem_operand z))
+    else Bin (abinop a2) (Bin (abinop a1) (sem_operand x) (sem_operand y)) (sem_operand z).
+Proof. intros. destruct a1, a2; reflexivity. Qed.
+
+(* ... and for three: a op1 b op2 c op3 d with op1 = op3 = `+ or -` and op2 tighter groups as (a op1 (b op2 c)) op3 d *)
+Theorem sum_of_product : forall x w1 t1 w1' y w2 a2 t2 w2' z w3 t3 w3' v (s1 s3 : arith),
+  aprio s1 = 2 -> aprio s3 = 2 -> 2 < aprio a2 ->
+  sem_expr (Chain x (TCons w1 s1 t1 w1' y (TCons w2 a2 t2 w2' z (TCons w3 s3 t3 w3' v TNil)))) =
+    Bin (abinop s3) (Bin (abinop s1) (sem_operand x) (Bin (abinop a2) (sem_operand y) (sem_operand z))) (sem_operand v).
+Proof. intros. destruct s1, s3, a2; cbn in *; try lia; try discriminate; reflexivity. Qed.
